@@ -174,7 +174,7 @@ pub fn replay(prop: &str, r: &Value) -> Vec<Violation> {
     let scratch = Scratch::new("creplay");
     let tpl = crate::cat::build_cat_template(&scratch, &cfg, &prelude, &layer);
     let mut res = JobResult::default();
-    let mut o = factory(prop, &cfg);
+    let mut o = if prop == "C10" { super::credp::factory(prop, &cfg) } else { factory(prop, &cfg) };
     run_chistory(prop, &scratch, &tpl, &layer, &prelude, &hist, 0, o.as_mut(), &mut res, false, None).into_iter().collect()
 }
 
